@@ -22,8 +22,19 @@ def inline_helpers(F, t, depth=3):
     helper is tolerated)"""
     if depth == 0 or not isinstance(t, tuple):
         return t
+    cb = None
     if t and t[0] == 'call' and isinstance(t[1], str) and t[1] in F.bodies:
         cb = F.bodies[t[1]]
+    elif t and t[0] == 'call' and isinstance(t[1], str) and t[2]:
+        # a trait method called on `self` from a method of the same type (self.best_value() inside maximize): the impl of that type
+        r0 = t[2][0]
+        while isinstance(r0, tuple) and r0 and r0[0] in ('ref', 'deref') and len(r0) > 1 and isinstance(r0[1], tuple):
+            r0 = r0[1]
+        if M.is_param(r0, index=0) and r0[1] in F.bodies and F.bodies[r0[1]].impl_self_adt:
+            cands = [b_ for b_ in F.find(adt=F.bodies[r0[1]].impl_self_adt, name=t[1].split('::')[-1]) if b_.kind != 'closure']
+            if len(cands) == 1:
+                cb = cands[0]
+    if cb is not None:
         if cb.nb <= 12 and not cb.back_edges():
             rets = cb.return_blocks()
             if len(rets) == 1:
@@ -93,7 +104,16 @@ def writes(body):
     """[(point, dest_term, value_term, stmt)] for every live assignment through a projection (field / deref / index)"""
     out = []
     for (bb, i, s) in body.assigns(lambda s: bool(s['place']['p'])):
-        dest = body.origin.place(s['place'], (bb, i))
+        pl = s['place']
+        p0 = pl['p'][0]
+        if isinstance(p0, dict) and 'f' in p0 and not (body.local_ty(pl['l']) or '').lstrip().startswith(('&', '*')) and 'deref' not in pl['p']:
+            # a field of a struct held BY VALUE in a local (`compilation.best_lb = ..`): the destination is that local's own field, not
+            # the place its current value was read from
+            dest = ('var', body.name, pl['l'], body.local_name(pl['l']))
+            for e in pl['p']:
+                dest = body.origin.project(dest, e, (bb, i))
+        else:
+            dest = body.origin.place(pl, (bb, i))
         val = body.origin.rvalue(s['rv'], (bb, i))
         out.append(((bb, i), dest, val, s))
     return out
